@@ -15,7 +15,8 @@ theorem interfaceItemsAll_ok :
       ∀ (container : Str) (ifaces : List (Str × List (Str × Tree))) (s : Scope) (acc : List (Str × Tree))
         (res : Scope × List (Str × Tree)),
         items.foldlM (denStep container ifaces) (s, acc) = some res →
-        ∃ newR : List Nat, res.1.next = s.next + newR.length ∧
+        ∃ newR : List Nat, res.1.next = s.next + newR.length ∧ newR.Pairwise (· < ·) ∧
+          (∀ x ∈ newR, st.types.resources.length ≤ x ∧ x < st'.types.resources.length) ∧
           ∀ (RL : List Nat), RL.length = s.next → ConsE ρ (RL ++ newR) st'.types →
             RootSim ρ st.types st.root ifaces → Sim ρ st.types st.scope s.binds →
             ExpRel ρ st.types itf.exports acc → (res.2.map (·.1)).Nodup →
@@ -30,7 +31,7 @@ theorem interfaceItemsAll_ok :
     intro container ifaces s acc res hfold
     simp only [List.foldlM_nil, Option.pure_def, Option.some.injEq] at hfold
     subst hfold
-    exact ⟨[], by simp, fun _ _ _ _ hsim hexp _ => ⟨hsim, hexp⟩⟩
+    exact ⟨[], by simp, List.Pairwise.nil, by simp, fun _ _ _ _ hsim hexp _ => ⟨hsim, hexp⟩⟩
   | cons i r ih =>
     intro st st' itf itf' h
     rw [interfaceItems_cons] at h
@@ -50,9 +51,21 @@ theorem interfaceItemsAll_ok :
       obtain ⟨so, hso, hacc⟩ := Option.map_eq_some_iff.mp h1
       obtain ⟨s1, out⟩ := so
       cases hacc
-      obtain ⟨newR1, hn1, kk1⟩ := k1 container ifaces s s1 out hso
-      obtain ⟨newR2, hn2, kk2⟩ := k2 container ifaces s1 (acc ++ out) res h2
-      refine ⟨newR1 ++ newR2, by simp [hn2, hn1]; omega, ?_⟩
+      obtain ⟨newR1, hn1, hp1, hr1, kk1⟩ := k1 container ifaces s s1 out hso
+      obtain ⟨newR2, hn2, hp2, hr2, kk2⟩ := k2 container ifaces s1 (acc ++ out) res h2
+      have hl1 := g1.ext.resources_len
+      have hl2 := g2.ext.resources_len
+      refine ⟨newR1 ++ newR2, by simp [hn2, hn1]; omega, ?_, ?_, ?_⟩
+      · rw [List.pairwise_append]
+        refine ⟨hp1, hp2, ?_⟩
+        intro a ha b hb
+        have := (hr1 a ha).2
+        have := (hr2 b hb).1
+        omega
+      · intro x hx
+        rcases List.mem_append.mp hx with hx | hx
+        · have := hr1 x hx; omega
+        · have := hr2 x hx; omega
       intro RL hRL hcons hrs hsim hexp hnd
       obtain ⟨more, hmore⟩ := denFold_prefix container ifaces r _ _ h2
       have hnd1 : ((acc ++ out).map (·.1)).Nodup := by
@@ -74,7 +87,8 @@ theorem interfaceDeclAll_ok {st st' : St} {id : Option Str} {items : List Item} 
     Grow st.types st'.types ∧ st'.root = st.root ∧ st'.scope = st.scope ∧
     ∀ (container : Str) (ifaces : List (Str × List (Str × Tree))) (next next' : Nat) (out : List (Str × Tree)),
       denoteItems container ifaces next items = some (next', out) →
-      ∃ newR : List Nat, next' = next + newR.length ∧
+      ∃ newR : List Nat, next' = next + newR.length ∧ newR.Pairwise (· < ·) ∧
+        (∀ x ∈ newR, st.types.resources.length ≤ x ∧ x < st'.types.resources.length) ∧
         ∀ (RL : List Nat), RL.length = next → ConsE ρ (RL ++ newR) st'.types →
           RootSim ρ st.types st.root ifaces → (out.map (·.1)).Nodup →
           HK [] [] st'.types (kb st'.types) (.instance i) (renT ρ (.instance (Forest.ofList out))) ∧
@@ -92,8 +106,8 @@ theorem interfaceDeclAll_ok {st st' : St} {id : Option Str} {items : List Item} 
     obtain ⟨res, hres, hr⟩ := Option.map_eq_some_iff.mp hden
     obtain ⟨s', out'⟩ := res
     cases hr
-    obtain ⟨newR, hn, kk⟩ := k1 container ifaces { next := next } [] (s', out) hres
-    refine ⟨newR, hn, ?_⟩
+    obtain ⟨newR, hn, hp, hrg, kk⟩ := k1 container ifaces { next := next } [] (s', out) hres
+    refine ⟨newR, hn, hp, fun x hx => ⟨(hrg x hx).1, (hrg x hx).2⟩, ?_⟩
     intro RL hRL hcons hrs hnd
     have hcons1 : ConsE ρ (RL ++ newR) st1.types := ConsE.back hcons g2 (fun _ _ hk => hk)
     obtain ⟨_, hexp⟩ := kk RL hRL hcons1 hrs (fun n => by simp [alGet, Scope.get]; trivial) trivial hnd
